@@ -30,7 +30,7 @@ type shapeCase struct {
 }
 
 func runC18(e *env) error {
-	e.rep.Rule = "cases = every file emitted for (a) the repository's scenario corpus, (b) generated converters with custom functions, the three error-wrapping modes and enum actions, (c) random structural converters; the Go AST of each emitted file is checked: no import of reflect; unsafe only when a user type lives there; every other import is a package owning a type or custom function reachable from the converter's signatures, fmt exactly when the model's plan contains an @error/@panic enum action or a wrapErrors site whose innermost element is a field or index (Gv.Emit.methodsNeeds), the wrapErrorsUsing package exactly when a wrapped error site exists; top-level declarations are only the empty converter struct, functions/methods and init (output:raw code excluded). non-trivial = the file has at least one import besides the user's package or more than one declaration; distinct = emitted text"
+	e.rep.Rule = "cases = every file emitted for (a) the repository's scenario corpus, (b) generated converters with custom functions, the three error-wrapping modes, enum actions, default constructors, update methods with every zero-value guard (also on structs Go cannot compare), field mappings and source-struct methods, (c) random structural converters; the Go AST of each emitted file is checked: no import of reflect; unsafe only when a user type lives there; every other import is a package owning a type or custom function reachable from the converter's signatures, fmt exactly when the model's plan contains an @error/@panic enum action or a wrapErrors site whose innermost element is a field or index (Gv.Emit.methodsNeeds), the wrapErrorsUsing package exactly when a wrapped error site exists; top-level declarations are only the empty converter struct, functions/methods and init (output:raw code excluded). non-trivial = the file has at least one import besides the user's package or more than one declaration; distinct = emitted text"
 	base := filepath.Join(e.scratch, "c18")
 	_ = os.MkdirAll(base, 0o755)
 	var mu sync.Mutex
@@ -56,6 +56,7 @@ func runC18(e *env) error {
 		}
 	}
 	var wg sync.WaitGroup
+	var genErr error
 	sem := make(chan struct{}, 10)
 	scs, err := gvx.LoadScenarios(e.repo)
 	if err != nil {
@@ -90,7 +91,7 @@ func runC18(e *env) error {
 	for bi := 0; bi < nb; bi++ {
 		var fs []*famOut
 		for i := 0; i < per; i++ {
-			fs = append(fs, famExtend(r, bi*1000+i), famEnum(r, bi*1000+i), famDefault(r, bi*1000+i))
+			fs = append(fs, famExtend(r, bi*1000+i), famEnum(r, bi*1000+i), famDefault(r, bi*1000+i), famUpdateOpt(r, bi*1000+i, true), famFields(r, bi*1000+i), famMethods(r, bi*1000+i))
 		}
 		kb := merge(fs...)
 		wg.Add(1)
@@ -104,21 +105,38 @@ func runC18(e *env) error {
 			for _, n := range kb.Order {
 				convs.WriteString(strings.ReplaceAll(kb.Convs[n], "MODULE", module))
 			}
-			tree := scratch.Tree{"go.mod": "module " + module + "\n\ngo 1.18\n", "p/types.go": "package p\n\n" + kb.Types, "p/conv.go": "package p\n\n" + convs.String(),
+			timports := ""
+			if len(kb.TypeImports) > 0 {
+				timports = "import (\n\t" + strings.ReplaceAll(strings.Join(kb.TypeImports, "\n\t"), "MODULE", module) + "\n)\n\n"
+			}
+			tree := scratch.Tree{"go.mod": "module " + module + "\n\ngo 1.18\n", "p/types.go": "package p\n\n" + timports + kb.Types, "p/conv.go": "package p\n\n" + convs.String(),
 				"p/custom.go": "package p\n\nimport \"" + module + "/rt\"\n\nvar _ = rt.Boom\n\n" + kb.Custom}
 			for k, v := range k2.SupportFiles(module) {
 				tree[k] = v
 			}
-			if scratch.Write(root, tree) != nil {
+			for k, v := range kb.Pkgs {
+				tree[k] = strings.ReplaceAll(v, "MODULE", module)
+			}
+			if err := scratch.Write(root, tree); err != nil {
+				mu.Lock()
+				genErr = err
+				mu.Unlock()
 				return
 			}
 			b := gvx.RunBatch(root, gvx.Options{Patterns: []string{"./p"}, Constraint: "!goverter"})
-			if b.DocsErr == nil {
-				addBatch("generated/families", b, kb.Convs)
+			if b.DocsErr != nil {
+				mu.Lock()
+				genErr = fmt.Errorf("c18: generated package does not load: %s", truncate(b.DocsErr.Error(), 1500))
+				mu.Unlock()
+				return
 			}
+			addBatch("generated/families", b, kb.Convs)
 		}(bi, kb)
 	}
 	wg.Wait()
+	if genErr != nil {
+		return genErr
+	}
 	sort.Slice(cases, func(i, j int) bool { return cases[i].Origin+cases[i].Converter < cases[j].Origin+cases[j].Converter })
 	var reqs []*sx.Node
 	for _, c := range cases {
